@@ -71,7 +71,7 @@ class Gen(object):
                                                                         '\\x41z', 'a\\u00e9b', '\\t'])
       self.features.add("string'")
       return [["'" + body + "'", 's']]
-    body = ''.join(pieces).replace('\\', '') + r.choice(['', '\n', ' " '])
+    body = ''.join(pieces).replace('\\', '') + r.choice(['', '\n', ' " ', '\n# not a comment\nz', '\n  #\n'])
     self.features.add('string"""')
     return [['"""' + body + '"""', 's']]
 
